@@ -792,6 +792,9 @@ func (w *World) setup() bool {
 		if w.c.Raw.Role == "server" {
 			return w.setupRawServer()
 		}
+		if cfg.Dir == "rev" {
+			return w.setupRawClientReverse()
+		}
 		return w.setupRawClient()
 	}
 	if w.c.Reg != nil {
